@@ -97,7 +97,8 @@ const prelude = `(declare-sort Str 0)
 (declare-fun reflist (Ref) (Array Int Ref))
 (declare-fun validAddr (Str) Bool)
 (declare-fun validDenom (Str) Bool)
-(assert (forall ((s Str)) (! (=> (validAddr s) (= (strOf (addrOf s)) s)) :pattern ((addrOf s)))))
+; NOT assumed: (validAddr s) => (strOf (addrOf s)) = s.  Bech32 text is not canonical: the all-upper-case spelling of an
+; address decodes to the same bytes, and AccAddress.String() prints the lower-case one (spec predicate canonAddr).
 (assert (forall ((a Addr)) (! (and (validAddr (strOf a)) (= (addrOf (strOf a)) a)) :pattern ((strOf a)))))
 (declare-fun DecString (Int) Str)
 (declare-fun DecParse (Str) Int)
